@@ -82,8 +82,16 @@ def outStep (s : List Junction × List (Option Str × List Junction)) (x : Optio
   x.2.junctionSet >>= fun js => .ok (sUnion s.1 js, dSet s.2 x.1 js)
 
 /-- the source's view of the output assemblies: `(key, Assembly object)` pairs -/
-def outItems (outs : List OutAsm) : List (Option Str × Assembly) :=
+abbrev outItems (outs : List OutAsm) : List (Option Str × Assembly) :=
   outs.map (fun a => (a.key, ({ scaffolds := a.scaffolds } : Assembly)))
+
+/-- `C11.outSetsOf` (the `mapM` inside `makeStats`) one element at a time -/
+theorem outSetsOf_cons (a : OutAsm) (outs : List OutAsm) :
+    C11.outSetsOf (a :: outs) =
+      (({ scaffolds := a.scaffolds } : Assembly).junctionSet >>= fun js =>
+       C11.outSetsOf outs >>= fun rest => .ok ((a.key, js) :: rest)) := by
+  simp only [C11.outSetsOf, List.mapM_cons, bind_assoc, pure_bind]
+  rfl
 
 /-- the loop over the output assemblies = the model's `mapM` (`C11.outSetsOf`), then the union of the sets and the dictionary built
     by storing them one by one (Python: `output_set |= junc_set; output_junction_sets[name] = junc_set`) -/
@@ -94,16 +102,15 @@ theorem outLoop_eq (outs : List OutAsm) (os : List Junction) (d : List (Option S
   induction outs generalizing os d with
   | nil => rfl
   | cons a outs ih =>
-    simp only [outItems, C11.outSetsOf, List.map_cons, List.foldlM_cons, List.mapM_cons] at ih ⊢
+    rw [outSetsOf_cons]
+    simp only [outItems, List.map_cons, List.foldlM_cons] at ih ⊢
     rw [outStep]
     cases ({ scaffolds := a.scaffolds } : Assembly).junctionSet with
     | error e => rfl
     | ok js =>
-      simp only [bind, Except.bind, pure, Except.pure] at ih ⊢
+      simp only [bind, Except.bind] at ih ⊢
       rw [ih]
-      cases List.mapM (fun (a : OutAsm) => do
-          let js ← ({ scaffolds := a.scaffolds } : Assembly).junctionSet
-          pure (a.key, js)) outs with
+      cases C11.outSetsOf outs with
       | error e => rfl
       | ok rest => rfl
 
@@ -115,18 +122,16 @@ theorem outSetsOf_keys (outs : List OutAsm) (outSets : List (Option Str × List 
     simp only [C11.outSetsOf, List.mapM_nil, pure, Except.pure, Except.ok.injEq] at h
     subst h; rfl
   | cons a outs ih =>
-    simp only [C11.outSetsOf, List.mapM_cons] at h ih
+    rw [outSetsOf_cons] at h
     cases hs : ({ scaffolds := a.scaffolds } : Assembly).junctionSet with
     | error e => rw [hs] at h; simp [bind, Except.bind] at h
     | ok js =>
       rw [hs] at h
-      cases hr : List.mapM (fun (a : OutAsm) => do
-          let js ← ({ scaffolds := a.scaffolds } : Assembly).junctionSet
-          pure (a.key, js)) outs with
+      cases hr : C11.outSetsOf outs with
       | error e => rw [hr] at h; simp [bind, Except.bind] at h
       | ok rest =>
         rw [hr] at h
-        simp only [bind, Except.bind, pure, Except.pure, Except.ok.injEq] at h
+        simp only [bind, Except.bind, Except.ok.injEq] at h
         subst h
         simp [ih rest hr]
 
@@ -179,9 +184,9 @@ theorem perStep_eq (inSets : List (Option Str × List Junction)) (tb tj : List J
   cases dGet? inSets (if truthy p.1 = true then Option.map lowerStr p.1 else none) with
   | none => rfl
   | some inSet =>
-    cases hE : inSet.isEmpty with
-    | true => simp
-    | false => simp [perToSrc, dSet_mapVal recToSrc]
+    cases inSet with
+    | nil => rfl
+    | cons j js => exact dSet_mapVal recToSrc _ _ _
 
 theorem perLoop_eq (inSets : List (Option Str × List Junction)) (tb tj : List Junction)
     (sets : List (Option Str × List Junction)) (acc : List (Str × Int × Int)) :
@@ -189,6 +194,11 @@ theorem perLoop_eq (inSets : List (Option Str × List Junction)) (tb tj : List J
   induction sets generalizing acc with
   | nil => rfl
   | cons p sets ih => rw [List.foldl_cons, List.foldl_cons, ← perStep_eq, ih]
+
+/-- the loop `for junc_set in input_junction_sets.values(): input_set |= junc_set` computes the model's `inputSet` -/
+theorem inputSet_eq (inSets : List (Option Str × List Junction)) :
+    (inSets.map (fun kv => kv.2)).foldl (fun acc js => sUnion acc js) [] = C11.unionOf inSets := by
+  rw [C11.unionOf, List.foldl_map]
 
 /-- the model's `makeStats`, with its three stages named (an unfolding; no content) -/
 theorem makeStats_eq (input : List Scaffold) (outs : List OutAsm) (cuts : Int) :
